@@ -540,6 +540,47 @@ impl Checker {
     }
 
     fn check_wire(&mut self, world: &World, obs: &StepObs, step: u64, out: &mut Vec<Finding>) {
+        // C08 / C14: "any execution of a canceled task still in progress is stopped", "running
+        // ones are told to stop": in the step in which the server announces the cancel / abort,
+        // every worker it is connected to that is executing one of the tasks must be sent a
+        // CancelTasks message naming it (whatever the server believes about where the task is).
+        for ev in &obs.events {
+            let (ids, property) = match &ev.payload {
+                EventPayload::TasksCanceled { task_ids } => (task_ids, "C08"),
+                EventPayload::TasksAborted { task_ids } => (task_ids, "C14"),
+                _ => continue,
+            };
+            for (w, ws) in &world.workers {
+                if !ws.server_connected || ws.sim.is_none() {
+                    continue;
+                }
+                for (lt, li, stop, _instructed) in world.live_execs(*w) {
+                    if stop.is_some() || !ids.iter().any(|t| tkey(*t) == lt) {
+                        continue;
+                    }
+                    let told = obs.sent_to_workers.iter().any(|(tw, m)| {
+                        tw == w
+                            && matches!(m, ToWorkerMsg::CancelTasks(c) if c.ids.iter().any(|t| tkey(*t) == lt))
+                    }) || self.worker_cancel_seen.contains_key(&(*w, lt));
+                    // a cancel for it may already be on its way from an earlier step
+                    let on_the_way = ws.s2w_contains_cancel(lt);
+                    if !told && !on_the_way {
+                        fnd(
+                            out,
+                            property,
+                            "running-execution-not-told-to-stop",
+                            "",
+                            format!(
+                                "the server announced the cancel/abort of {lt:?} while worker {w} (connected) is executing it (instance {li}) and did not send it a CancelTasks message for the task"
+                            ),
+                            step,
+                        );
+                    } else {
+                        self.probes.hit("cancel_sent_to_executing_worker");
+                    }
+                }
+            }
+        }
         if let Some((w, msg)) = &obs.worker_processed {
             match msg {
                 ToWorkerMsg::CancelTasks(m) => {
